@@ -158,6 +158,24 @@ def run_case(ctx: Any, expected: Expected, case: Dict[str, Any], name: str, what
             computed = expected.compute(ws.ini, ws.ods, case["country"], schedule_arg, from_d, to_d, allow_negative=negative)
             computed_to = expected.compute(ws.ini, ws.ods, case["country"], schedule_arg, None, to_d, allow_negative=negative) if from_d else computed
             violations = check_full_report(report, hists, computed, computed_to, sched, from_d, to_d, stats)
+            # the reference views themselves are tied to the input side: the from/to view holds exactly the to-date view's
+            # fractions whose event's own date is on or after the from-date, and (clean cuts) the to-date view holds exactly
+            # the unfiltered fractions dated up to the to-date
+            def keys(cd: Any, lower: Optional[date] = None, upper: Optional[date] = None) -> List[Tuple[Any, ...]]:
+                return [
+                    (g.taxable_event.unique_id, type(g.taxable_event).__name__, g.acquired_lot.unique_id if g.acquired_lot is not None else "", str(g.crypto_amount))
+                    for g in cd.gain_loss_set
+                    if (lower is None or g.taxable_event.timestamp.date() >= lower) and (upper is None or g.taxable_event.timestamp.date() <= upper)
+                ]
+
+            for asset in sorted(hists):
+                if from_d is not None and keys(computed[asset]) != keys(computed_to[asset], lower=from_d):
+                    violations.append({"rule": "fullreport.window-view-is-not-the-to-date-view-from-the-from-date-on", "detail": {"asset": asset, "in_view": len(keys(computed[asset])), "expected": len(keys(computed_to[asset], lower=from_d))}})
+            if to_d is not None and all(clean_cut(h, to_d) for h in hists.values()):
+                unfiltered = expected.compute(ws.ini, ws.ods, case["country"], schedule_arg, None, None, allow_negative=negative)
+                for asset in sorted(hists):
+                    if keys(computed_to[asset]) != keys(unfiltered[asset], upper=to_d):
+                        violations.append({"rule": "fullreport.to-date-view-is-not-the-history-up-to-the-to-date", "detail": {"asset": asset, "in_view": len(keys(computed_to[asset])), "expected": len(keys(unfiltered[asset], upper=to_d))}})
         for p in report.problems:
             violations.append({"rule": "fullreport.structure", "detail": {"problem": p}})
         return stats, violations
